@@ -14,7 +14,9 @@
  *   err <t> <call>        a call made WHATEVER the lifecycle state of the topology (init only / configured / loaded / after a
  *                         failed load), recorded as rc + errno class: shmemlen, shmemwrite (scratch file, probed address),
  *                         exportxml, exportxmlbuf, exportsynth, dup, diffbuild, diffapply, setsynthetic, setxml, setflags,
- *                         setfilter, setpid, setcomponents, restrict, allow, insertmisc, distadd, distget, refresh
+ *                         setfilter, setpid, setcomponents, restrict, allow, insertmisc, distadd, distget, refresh,
+ *                         adopt<variant> (hwloc_shmem_topology_adopt of a file written here: good, abi, version, hlength, length,
+ *                         addr, busy, nonshmem, trunc)
  *   filterall <t>         before load: keep every object type (memory-side caches are filtered out by default)
  *   destroy <t>
  *   env <NAME> [<VALUE>]  setenv / unsetenv (e.g. HWLOC_SYNTHETIC_VERBOSE)
@@ -41,6 +43,7 @@
 #include <errno.h>
 #include <stdint.h>
 #include <limits.h>
+#include <stddef.h>
 #include <unistd.h>
 #include <fcntl.h>
 #include <sys/mman.h>
@@ -410,6 +413,71 @@ static int synth_warns(hwloc_topology_t t)
   return 0;
 }
 
+/* hwloc_shmem_topology_adopt on a good file and on every way C19 corrupts one.  The file is produced here by
+ * hwloc_shmem_topology_write from a private scratch topology (an independent topology of this thread, destroyed at the end).
+ * variants: good | abi (valid header, foreign ABI word in the stored topology) | version | hlength | length | addr (header
+ * address != requested) | busy (requested range already mapped) | nonshmem (not a shmem file) | trunc (shorter than a header) */
+/* mirror of the file header of hwloc/shmem.c (private to that file); the offset of the stored topology is taken from
+ * the header the library itself wrote, so a layout change shows up as 'adopt-setup-failed' / a good adopt failing */
+struct hwv_shmem_header { uint32_t header_version, header_length; uint64_t mmap_address, mmap_length; };
+static pthread_mutex_t shm_lock = PTHREAD_MUTEX_INITIALIZER;   /* the address range is a process-wide resource the application coordinates */
+static int do_adopt_once(const char *variant, unsigned ti, hwloc_topology_t scratch, int fd)
+{
+  hwloc_topology_t adopted = NULL; size_t len = 8u << 20; int tries, rc = -1, e = 0; void *addr = MAP_FAILED, *blocker = MAP_FAILED;
+  struct hwv_shmem_header hd; uint32_t hlen;
+  (void)ti;
+  if (ftruncate(fd, 0) < 0) { errno = EIO; return -2; }
+  for (tries = 0; tries < 8; tries++) {
+    addr = mmap(NULL, len, PROT_NONE, MAP_PRIVATE | MAP_ANONYMOUS, -1, 0);
+    if (addr == MAP_FAILED) break;
+    munmap(addr, len); errno = 0;
+    rc = hwloc_shmem_topology_write(scratch, fd, 0, addr, len, 0);
+    if (!(rc < 0 && errno == EBUSY)) break;
+  }
+  if (rc < 0) { if (!errno) errno = EIO; return -2; }
+  if (pread(fd, &hd, sizeof(hd), 0) != (ssize_t)sizeof(hd)) { errno = EIO; return -2; }
+  hlen = hd.header_length;
+  if (!strcmp(variant, "abi")) { unsigned abi = HWLOC_TOPOLOGY_ABI ^ 0x10100; if (pwrite(fd, &abi, sizeof(abi), hlen + offsetof(struct hwloc_topology, topology_abi)) != (ssize_t)sizeof(abi)) e = EIO; }
+  else if (!strcmp(variant, "version")) { hd.header_version++; if (pwrite(fd, &hd, sizeof(hd), 0) < 0) e = EIO; }
+  else if (!strcmp(variant, "hlength")) { hd.header_length += 8; if (pwrite(fd, &hd, sizeof(hd), 0) < 0) e = EIO; }
+  else if (!strcmp(variant, "length")) { hd.mmap_length += 4096; if (pwrite(fd, &hd, sizeof(hd), 0) < 0) e = EIO; }
+  else if (!strcmp(variant, "addr")) { hd.mmap_address += 4096; if (pwrite(fd, &hd, sizeof(hd), 0) < 0) e = EIO; }
+  else if (!strcmp(variant, "nonshmem")) { char junk[256]; memset(junk, 'x', sizeof(junk)); if (ftruncate(fd, 0) < 0 || pwrite(fd, junk, sizeof(junk), 0) < 0) e = EIO; }
+  else if (!strcmp(variant, "trunc")) { if (ftruncate(fd, 10) < 0) e = EIO; }
+  else if (!strcmp(variant, "busy")) { blocker = mmap(addr, len, PROT_NONE, MAP_PRIVATE | MAP_ANONYMOUS | MAP_FIXED, -1, 0); }
+  if (e) { errno = e; return -2; }
+  errno = 0;
+  rc = hwloc_shmem_topology_adopt(&adopted, fd, 0, addr, len, 0);
+  e = rc < 0 ? errno : 0;
+  if (!rc) hwloc_topology_destroy(adopted);
+  if (blocker != MAP_FAILED) munmap(blocker, len);
+  errno = e;
+  return rc;
+}
+
+static int do_adopt(const char *variant, unsigned ti)
+{
+  hwloc_topology_t scratch = NULL; char path[64]; int fd, rc = -1, e = 0, tries;
+  snprintf(path, sizeof(path), "/tmp/hwv-mt-adopt-%d-%u", (int)getpid(), ti);
+  fd = open(path, O_CREAT | O_RDWR | O_TRUNC, 0600);
+  if (fd < 0) { errno = EIO; return -2; }
+  if (hwloc_topology_init(&scratch) < 0 || hwloc_topology_set_synthetic(scratch, "pack:2 pu:2") < 0 || hwloc_topology_load(scratch) < 0) {
+    /* the scratch topology is an ordinary independent topology of this thread: if IT cannot be created the registry is
+     * broken, which is a result (it differs from the run alone), not a set-up problem */
+    e = errno ? errno : EIO; if (scratch) hwloc_topology_destroy(scratch); close(fd); unlink(path); errno = e == EINVAL ? ENOSYS : e; return -1; }
+  pthread_mutex_lock(&shm_lock);
+  for (tries = 0; tries < 8; tries++) {
+    rc = do_adopt_once(variant, ti, scratch, fd); e = errno;
+    /* EBUSY = the probed range was taken by another thread's allocation between the write and the adopt: the range is the
+     * application's to coordinate, probe again (the `busy` variant expects EBUSY) */
+    if (!(rc == -1 && e == EBUSY && strcmp(variant, "busy"))) break;
+  }
+  pthread_mutex_unlock(&shm_lock);
+  hwloc_topology_destroy(scratch); close(fd); unlink(path);
+  errno = e;
+  return rc;
+}
+
 /* ---------------- one command ---------------- */
 struct outcome { int rc; uint64_t digest; char oracle[512]; };
 
@@ -448,7 +516,6 @@ static void run_cmd(char *cmd, struct outcome *out, int verbose)
       /* The target address range is a process-wide resource the APPLICATION has to coordinate: the harness serialises
        * its own probe-and-write sequences, and when another thread's allocation grabs the probed range in between
        * (EBUSY: mapped elsewhere) it probes again - that is not an interference between topologies. */
-      static pthread_mutex_t shm_lock = PTHREAD_MUTEX_INITIALIZER;
       size_t len = 8u << 20; char path[64]; int fd, tries; void *addr;
       snprintf(path, sizeof(path), "/tmp/hwv-mt-shmem-%d-%u", (int)getpid(), ti); fd = open(path, O_CREAT | O_RDWR | O_TRUNC, 0600);
       pthread_mutex_lock(&shm_lock);
@@ -461,6 +528,7 @@ static void run_cmd(char *cmd, struct outcome *out, int verbose)
       }
       { int e = errno; pthread_mutex_unlock(&shm_lock); if (fd >= 0) { close(fd); unlink(path); } errno = e; }
     }
+    else if (!strncmp(what, "adopt", 5)) { rc = do_adopt(what + 5, ti); if (rc == -2) { out->rc = 0; out->digest = fnv_str(FNV0, "adopt-setup-failed"); if (verbose) printf(" errno=setup-%s", hwv_errno_name(errno)); return; } }
     else if (!strcmp(what, "exportxml")) { char path[64]; snprintf(path, sizeof(path), "/tmp/hwv-mt-x-%d-%u.xml", (int)getpid(), ti); rc = hwloc_topology_export_xml(t, path, 0); { int e = errno; unlink(path); errno = e; } }
     else if (!strcmp(what, "exportxmlbuf")) { char *b = NULL; int l = 0; rc = hwloc_topology_export_xmlbuffer(t, &b, &l, 0); if (!rc) hwloc_free_xmlbuffer(t, b); }
     else if (!strcmp(what, "exportsynth")) { char b[1024]; rc = hwloc_topology_export_synthetic(t, b, sizeof(b), 0); if (rc > 0) rc = 0; }
